@@ -4,7 +4,9 @@ L1: Pxv/Model/Session.lean (`finalizeSession`, `willEncrypt`/`willSign`, `setAtt
     `outgoingAlg`, `respond`, `debugView`).
 L2: Pxv/Thm/C12.lean.
 L3: the same harness and protocol as C11 (harness/crates/sess, model `session`), here with every crypto
-    configuration: algorithm none/sign/encrypt x rule registered for the cookie name, for another name, or for
+    configuration, which may change from request to request (key / algorithm rotation with fallbacks, roll-back,
+    rules moved or dropped: the cookie a request presents may have been written by another processor) and with
+    incoming sessions assembled by hand (`IncomingSession::from_parts`): algorithm none/sign/encrypt x rule registered for the cookie name, for another name, or for
     the percent-encoded name x percent-encoding on/off x cookie names with and without characters that get
     percent-encoded; every cookie attribute combination; random histories leading to finalisation.
 
@@ -18,6 +20,64 @@ from checks import c11
 
 NAMES = ["id", "sid", "__Host-s", "my id", "s:id", "sess(1)", "a%b"]
 
+# what the generated requests looked like (counted by the oracle's reference, written into the evidence)
+SCEN = {}
+
+
+def count(k):
+    SCEN[k] = SCEN.get(k, 0) + 1
+
+
+def gen_crypto(rng, name):
+    """One processor: algorithm x which name the rule is registered for x percent-encoding; key 0, no fallbacks."""
+    r = rng.random()
+    alg = "none" if r < 0.15 else ("sign" if r < 0.45 else "encrypt")
+    r = rng.random()
+    if r < 0.7:
+        rule = name
+    elif r < 0.85:
+        rule = c11.pct_name(name)
+    else:
+        rule = rng.choice(["other", "id", "ID", name + " "])
+    return {"alg": alg, "name": rule, "percent_encode": rng.random() < 0.85, "key": 0, "fallbacks": []}
+
+
+def rotate(rng, cur, past, name, nkeys):
+    """The processor of the next deployment: what operators do to a crypto rule between two requests."""
+    new = json.loads(json.dumps(cur))
+    old = [cur["alg"], cur["key"]] if cur["alg"] != "none" else None
+    r = rng.random()
+    if r < 0.30:      # key rotation, same algorithm; the old key stays readable (or not)
+        new["key"] = nkeys[0]
+        nkeys[0] += 1
+    elif r < 0.62:    # algorithm rotation (encrypt <-> sign), fresh or same key
+        new["alg"] = {"encrypt": "sign", "sign": "encrypt", "none": rng.choice(["sign", "encrypt"])}[cur["alg"]]
+        if rng.random() < 0.7:
+            new["key"] = nkeys[0]
+            nkeys[0] += 1
+    elif r < 0.72:    # roll back to an earlier processor
+        return json.loads(json.dumps(rng.choice(past)))
+    elif r < 0.80:    # crypto switched off / rule moved to another name
+        if rng.random() < 0.5:
+            new["alg"] = "none"
+        else:
+            new["name"] = rng.choice([name, c11.pct_name(name), "other"])
+    elif r < 0.86:
+        new["percent_encode"] = not cur["percent_encode"]
+    else:             # only the fallback list changes
+        pass
+    keep = [f for f in cur["fallbacks"] if rng.random() < 0.6]
+    fb = ([old] if old and rng.random() < 0.8 else []) + keep
+    if rng.random() < 0.15:   # a fallback nobody ever used / the same key under the other algorithm
+        fb.append([rng.choice(["sign", "encrypt"]), rng.choice([new["key"], nkeys[0] + 7])])
+    new["fallbacks"] = [f for i, f in enumerate(fb) if f not in fb[:i] and f != [new["alg"], new["key"]]][:3]
+    return new
+
+
+def gen_client(rng):
+    n = rng.choice([0, 1, 1, 1, 2])
+    return {k: rng.choice(c11.VALS) for k in rng.sample(c11.KEYS, n)}
+
 
 def gen(rng):
     cfg = c11.gen_cfg(rng)
@@ -30,46 +90,73 @@ def gen(rng):
         "same_site": rng.choice([None, "strict", "lax", "none"]),
         "kind": rng.choice(["persistent", "session"]),
     })
-    r = rng.random()
-    alg = "none" if r < 0.15 else ("sign" if r < 0.45 else "encrypt")
-    r = rng.random()
-    if r < 0.7:
-        rule = ck["name"]
-    elif r < 0.85:
-        rule = c11_pct(ck["name"])
-    else:
-        rule = rng.choice(["other", "id", "ID", ck["name"] + " "])
-    cfg["crypto"] = {"alg": alg, "name": rule, "percent_encode": rng.random() < 0.85}
+    cur = gen_crypto(rng, ck["name"])
+    # family: "static" one processor for the whole history (as deployed most of the time);
+    #         "rotating" the processor changes between requests; "live" = rotating, and the first request
+    #         leaves a readable cookie with client-side state behind (encrypting processor, rule in place)
+    family = rng.choice(["static", "static", "rotating", "rotating", "live"])
+    if family == "live":
+        cur.update({"alg": "encrypt", "name": ck["name"]})
+    elif family == "rotating" and rng.random() < 0.75:   # mostly start from a working deployment
+        cur.update({"alg": rng.choice(["sign", "encrypt", "encrypt"]), "name": ck["name"]})
+    cfg["crypto"] = {k: cur[k] for k in ("alg", "name", "percent_encode")}
+    past, nkeys = [cur], [1]
     reqs = []
-    for i in range(rng.choice([1, 1, 2, 3, 4])):
+    nreq = rng.choice([1, 1, 2, 3, 4]) if family == "static" else rng.choice([2, 2, 3, 4, 5])
+    for i in range(nreq):
         nops = rng.choice([0, 1, 2, 3, 5])
         ops = [c11.gen_op(rng) for _ in range(nops)]
-        if rng.random() < 0.5:  # server-side only: a signed cookie is enough
+        r = rng.random()
+        if r < 0.4:     # server-side only: a signed cookie is enough (unless client state is carried over)
             ops = [o for o in ops if not o[0].startswith("c.")]
+        elif r < 0.55:  # the client side is only looked at
+            ops = [o if not o[0].startswith("c.") else rng.choice([["c.get", "a"], ["c.is_empty"], ["c.remove", "zz"]]) for o in ops]
         if not ops and rng.random() < 0.7:
             ops = [["s.insert", "a", 1]]
-        src = "jar" if i == 0 or rng.random() < 0.88 else rng.choice(["none", "tampered", "tampered", rng.randrange(i)])
-        reqs.append({"src": src, "expire": rng.random() < 0.03, "rem": c11.gen_rem(rng, cfg), "ops": ops})
+        if family == "live" and i == 0:
+            ops = [o for o in ops if o[0] not in ("invalidate", "c.clear", "c.remove", "c.remove_t")] + [["c.insert", rng.choice(c11.KEYS), rng.choice(c11.VALS)]]
+        r = rng.random()
+        if i == 0 or r < 0.80:
+            src = "jar"
+        elif r < 0.90:  # the incoming session is built by hand
+            src = {"parts": rng.randrange(i + 1) if rng.random() < 0.1 else rng.randrange(i), "client": gen_client(rng)}
+        else:
+            src = rng.choice(["none", "tampered", "tampered", rng.randrange(i)])
+        rq = {"src": src, "expire": rng.random() < 0.03, "rem": c11.gen_rem(rng, cfg), "ops": ops}
+        if family != "static":
+            if i > 0 and rng.random() < 0.6:
+                cur = rotate(rng, cur, past, ck["name"], nkeys)
+                past.append(cur)
+            rq["crypto"] = cur
+        reqs.append(rq)
     return {"cfg": cfg, "requests": reqs}
-
-
-def c11_pct(name):
-    return "".join("%%%02X" % b if c11.needs_pct(chr(b)) else chr(b) for b in name.encode())
 
 
 def oracle(case, out):
     if not isinstance(out, dict) or out.get("r") != "ok":
         return "harness did not complete the history: %r" % (out,)
     cfg = case["cfg"]
-    ck, cr = cfg["cookie"], cfg["crypto"]
+    ck = cfg["cookie"]
     ref = c11.Ref(cfg)
     problems, known = [], []
+    if len(out["reqs"]) != len(case["requests"]):
+        return "answered %d requests out of %d" % (len(out["reqs"]), len(case["requests"]))
     for i, (rq, got) in enumerate(zip(case["requests"], out["reqs"])):
         exp = ref.request(rq)
+        cr = rq.get("crypto") or cfg["crypto"]   # the processor in force for this request
+        count("session source: " + exp["how"])
+        if i > 0 and cr != (case["requests"][i - 1].get("crypto") or cfg["crypto"]):
+            count("processor differs from the previous request's")
+        if exp["presented"] and exp["presented"][1] and not exp["cli_dirty"]:
+            enc = cr["alg"] == "encrypt" and cr.get("name") == ck["name"]
+            count("client-side state carried over untouched, processor %s" % ("encrypts" if enc else "does not encrypt"))
         P = lambda msg: problems.append("request %d: %s" % (i, msg))
         gf, ef = got["fin"], exp["fin"]
         if got.get("leak"):
             P("Debug output of the session contains a session id")
+        if (exp["presented"] is None) != (got.get("in") is None):
+            P("the request started %s a session, the cookie rules say the opposite (in=%r)" % (
+                "with" if got.get("in") is not None else "without", got.get("in")))
         if gf.get("r") in ("set", "removal"):
             # (1) never unprotected, (2) client state only encrypted -- judged from the header bytes
             prot = gf.get("prot")
@@ -124,9 +211,15 @@ def nontrivial(case, out):
                for r in out["reqs"])
 
 
+def src_kind(rq):
+    src = rq.get("src", "jar")
+    return "parts" if isinstance(src, dict) else ("replay" if isinstance(src, int) else src)
+
+
 def case_key(c):
     cfg = c["cfg"]
-    return json.dumps([cfg["cookie"], cfg["crypto"], [[o[0] for o in r["ops"]] for r in c["requests"]]], sort_keys=True)
+    return json.dumps([cfg["cookie"], cfg["crypto"],
+                       [[r.get("crypto"), src_kind(r), [o[0] for o in r["ops"]]] for r in c["requests"]]], sort_keys=True)
 
 
 def match_known(R):
@@ -141,23 +234,40 @@ def match_known(R):
 
 def mutate(rng, c):
     c = json.loads(json.dumps(c))
-    c["cfg"]["crypto"]["alg"] = rng.choice(["none", "sign", "encrypt"])
-    if rng.random() < 0.5:
-        c["cfg"]["crypto"]["name"] = c["cfg"]["cookie"]["name"]
+    name = c["cfg"]["cookie"]["name"]
+    rq = rng.choice(c["requests"]) if c["requests"] else None
+    r = rng.random()
+    if rq is None or r < 0.3:
+        c["cfg"]["crypto"]["alg"] = rng.choice(["none", "sign", "encrypt"])
+        if rng.random() < 0.5:
+            c["cfg"]["crypto"]["name"] = name
+    elif r < 0.8:
+        cur = rq.get("crypto") or dict(c["cfg"]["crypto"], key=0, fallbacks=[])
+        cur.setdefault("key", 0)
+        cur.setdefault("fallbacks", [])
+        rq["crypto"] = rotate(rng, cur, [cur], name, [10])
+    else:
+        rq["ops"] = [o for o in rq["ops"] if not o[0].startswith("c.") or o[0] in c11.READS]
     return c
 
 
-RULE = ("crypto algorithm {none 15%, sign 30%, encrypt 55%} x rule registered for {the cookie name 70%, its percent-encoded form 15%, "
+RULE = ("first processor: crypto algorithm {none 15%, sign 30%, encrypt 55%} x rule registered for {the cookie name 70%, its percent-encoded form 15%, "
         "another name (other, id, ID, name+space) 15%} x percent-encoding {on 85%, off} x cookie names {id, sid, __Host-s, 'my id', 's:id', 'sess(1)', 'a%b'} x "
-        "domain/path/Secure/HttpOnly/SameSite/kind all combinations x 1-4 requests of 0-5 random session operations (half of the "
-        "histories server-side only). non-trivial = at least one request ends in a cookie or in a crypto refusal; distinct by "
-        "(cookie config, crypto config, operation names)")
+        "domain/path/Secure/HttpOnly/SameSite/kind all combinations. Families: static 40% (one processor, 1-4 requests), rotating 40% and live 20% "
+        "(2-5 requests, each request names its processor; before each later request with 60% the processor is rotated: new key 30%, algorithm "
+        "encrypt<->sign 32%, roll-back to an earlier processor 10%, crypto off / rule moved 8%, percent-encoding toggled 6%, fallbacks only 14%; "
+        "in the rotating family the first processor has its rule in place with 75%; the previous primary is kept as a fallback with 80%, older fallbacks with 60% each, a never-used fallback 15%; live = the first request runs under "
+        "an encrypting processor and inserts client-side state). Requests: 0-5 random session operations (40% server-side only, 15% client side read-only); "
+        "session source: jar 80%, IncomingSession::from_parts(id of an issued cookie, 0-2 random client entries) 10%, none / tampered / replay of an older "
+        "cookie 10%. non-trivial = at least one request ends in a cookie or in a crypto refusal; distinct by (cookie config, per-request processors, sources, operation names)")
 
 
 def run(R):
     R.assumptions += [
         "biscotti's AEAD/HMAC are not modelled: 'signed'/'encrypted' is judged from the wire format (base64(MAC|value) / not parseable)",
-        "the Processor holds one crypto rule; fallback keys are irrelevant for outgoing cookies",
+        "the Processor holds one crypto rule (primary + fallbacks); two cookies protected with different keys or algorithms are never readable by each other's configuration (AEAD/HMAC soundness); percent-decoding a JSON payload that was not encoded is the identity (generated values contain no '%')",
+        "the session cookie configuration is fixed per history; the processor may change per request",
+        "IncomingSession::from_parts is exercised with ids of cookies issued earlier in the history (an unknown id = such an id after external expiry)",
         "histories as in C11 (same harness, same model)",
     ]
     R.coverage["trusted_base"].append("harness classification of the Set-Cookie bytes (plain / signed / encrypted) and its UUID scan of the Debug output")
@@ -165,3 +275,4 @@ def run(R):
         R, modules=["Pxv.Thm.C12"], model="session", pkg="sess", gen=gen, oracle=oracle, nontrivial=nontrivial,
         mutate=mutate, match_known=match_known(R), case_key=case_key, n_quick=4000, n_thorough=150000, rule=RULE, batch=5000,
     )
+    R.coverage["request_scenarios"] = dict(sorted(SCEN.items()))
